@@ -4,7 +4,7 @@
    including a handler that kills the process); the only hypothesis is that the bucket
    sequence has not reached 2^64. *)
 From Coq Require Import List NArith Sorted.
-From Verif Require Import Base.GoStr Base.GoStrLemmas Wal.Model Wal.Proofs.
+From Verif Require Import Base.GoStr Base.GoStrLemmas Wal.Model Wal.Proofs Wal.OkSound.
 Import ListNotations.
 Local Open Scope N_scope.
 
@@ -59,3 +59,15 @@ Print Assumptions C16_key_order.
 Theorem C16_key_shape : forall id, event_key id = event_prefix ++ hex16 id.
 Proof. exact event_key_shape. Qed.
 Print Assumptions C16_key_shape.
+
+(* The boolean check [Model.ok] that the harness evaluates on the IMPLEMENTATION's observations
+   accepts every behaviour of the model: for every history with distinct event items, the
+   observations the model produces (obs_trace: Log result kinds, Commit results, file snapshots
+   with keys and ids, handler calls with the methods reached) pass the check.  Together with
+   C16_replay / C16_removed_iff / C16_ids_fresh the check therefore accepts exactly the behaviours
+   the theorems describe, and a run with V = [] and M = [] is a run the theorems cover. *)
+Theorem C16_ok_sound : forall regs ops tr st,
+  run (init regs) ops = (tr, st) -> seq st < two64N -> NoDup (log_items ops) ->
+  ok (mkCase regs ops (obs_trace tr)) = true.
+Proof. exact ok_sound. Qed.
+Print Assumptions C16_ok_sound.
